@@ -9,7 +9,12 @@ REAL App on them (harness/cmd/c15) and evaluates model and oracle in Coq (Corr/C
 A second stream drives ONE Configure through a history: SetLoaders / AddLoaders / Initialize / reads, several
 Initializes with loaders added in between, the last one optionally performed by App.Run (app.SetConfigure(cfg) or the
 App's own Configure); every step is replayed on the model (Model/ConfigMerge.v cstep_run) and the property is
-evaluated on the observations (every Initialize consults the sort of ALL loaders configured so far)."""
+evaluated on the observations (every Initialize consults the sort of ALL loaders configured so far).
+
+A third stream RE-USES option values and loader slices: app.SetConfigLoader(ls...) / AddConfigLoader(ls...) /
+SetConfig(file) values are built once and applied round after round to a new App, to the same App started again, to a
+new App on the same Configure, to Configures driven directly with the same []Loader slices; every object configured
+from them must show the configuration the model computes from the VALUES (Corr/Check_C15.v rcase)."""
 import copy
 import glob
 import json
@@ -42,7 +47,7 @@ SUB = ["host", "port", "name", "mode", "opts", "a", "b", "c", "ttl"]
 WORDS = ["alpha", "beta", "x1", "prod", "dev", "h1", "west", "v2", "some text"]
 FLOATS = ["0.5", "1.5", "2.25", "-3.75"]
 
-HEADER = ("From Coq Require Import List String ZArith.\n"
+HEADER = ("From Coq Require Import List String NArith ZArith.\n"
           "From IocVerif Require Import Model.Sorter Model.ConfigMerge Corr.Check_C15.\n"
           "Import ListNotations.\nLocal Open Scope list_scope.\n")
 
@@ -201,7 +206,52 @@ def doc_text(doc, style):
     return "\n".join(yaml_block(doc)) + "\n"
 
 
+# command-line value texts.  PUNCT: strconv2.ParseAny reads them as the text itself (whatever punctuation they
+# contain); TYPED: ParseAny reads a quoted text (quotes dropped), a number, a bool, a list or a map.
+PUNCT_VALUES = ["a=b", "a=b=c", "=", "==", "x=", "=x", "k=v", "x=1&y=2", "user:pw@tcp(h:3306)/db?x=1&y=2", "aGVsbG8=", "aGk==",
+                "http://h:80/p?a=b#frag", "k:v", "k: v", "a#b", "a #b", "#c", "x,y", "some text", " lead", "trail ", "'a=b", "a\"b",
+                "{a=b}", "key=[v]", "(a=b)", "a=(b", "a\\b", "$", "${x}", "-", "--", "~", "null", "yes", "1e3", "0x10", "*", "&x",
+                "!t", "%", "@a", "`", "|", ">", "?", "- x", "[a", "b]", "{", "}", "a;b", "a|b=c", "p=q r=s"]
+TYPED_VALUES = ['"a=b"', "'q'", '"k: v"', "''", '""', "'x=y z'", "007", "+5", "1.50", "-0.5", "8080", "True", "FALSE", "[1,2]",
+                "[a=b,c]", "[]", "[x,y=z]", '{"a":1}', '{"a":"b=c","n":[1,2]}', "map[a:b=c]", "map[a:1 b:x]", "{}", "1000000",
+                "0.00001", "[k:v,#,a b]"]
+
+
+def arg_value_ok(t):
+    """texts the generator does not emit: a lone quote character makes strconv2.ParseAny panic (val[1:0]; the fault is in
+    go-kid/strconv2 and already recorded for C16 as KF-C16e) - alone or as an element of a [..] list"""
+    if t in ("'", '"'):
+        return False
+    if t.startswith("[") and ("'" in t or '"' in t):
+        return False
+    return all(32 <= ord(ch) < 127 for ch in t)
+
+
+def gen_arg_value(rng):
+    r = rng.random()
+    if r < 0.5:
+        return rng.choice(PUNCT_VALUES)
+    if r < 0.7:
+        return rng.choice(TYPED_VALUES)
+    while True:
+        t = "".join(rng.choice("ab1=:#, '\"?&/@.-_+[]{}()") for _ in range(rng.choice([1, 2, 3, 4, 6, 8])))
+        if arg_value_ok(t):
+            return t
+
+
+def arg_value_class(t):
+    if t[:1] in ("'", '"') and t[-1:] == t[:1] and len(t) >= 2:
+        return "quoted"
+    if t[:1] in "[{" or t.startswith("map["):
+        return "bracketed"
+    if "=" in t:
+        return "text_with_equals_sign"
+    return "other_text_or_number"
+
+
 def arg_text(p, a):
+    if a[0] == "t":
+        return "--app.config=%s=%s" % (".".join(p), a[1])
     if a[0] == "i":
         v = str(a[1])
     elif a[0] == "f":
@@ -216,9 +266,11 @@ def arg_text(p, a):
 def gen_args(rng, schema, profile):
     """args of one ArgsLoader as [(path, atom)]; profile: ok | dup | overwrite | panic"""
     doc = revalue(rng, schema, 0.6, 0.0)
-    pairs = [(p, a) for p, a in leaf_paths(doc) if a[0] in "isbf" and (a[0] != "s" or " " not in a[1])]
+    pairs = [(p, a) for p, a in leaf_paths(doc) if a[0] in "isbf"]
     rng.shuffle(pairs)
     pairs = pairs[:rng.choice([1, 2, 3, 4])]
+    # value texts with punctuation ('=' ':' '#' ',' blanks, quotes, brackets ...): the model types them (parse_arg)
+    pairs = [(p, ["t", gen_arg_value(rng)] if rng.random() < 0.3 else a) for p, a in pairs]
     if profile == "dup" and pairs:
         p, _ = rng.choice(pairs)
         pairs.append((p, gen_atom(rng, False)))
@@ -230,7 +282,7 @@ def gen_args(rng, schema, profile):
         p, a = rng.choice(deep)
         i = pairs.index((p, a))
         pairs.insert(rng.randint(0, i), (p[:-1], ["i", 7]))
-    return [[p, a if a[0] != "s" or " " not in a[1] else ["s", "w"]] for p, a in pairs]
+    return [[p, a] for p, a in pairs]
 
 
 # ------------------------------------------------------------------------------------------------
@@ -573,13 +625,14 @@ def coq_doc(t):
     return vlib.coq_list("(%s, %s)" % (cs(k), coq_tree(v)) for k, v in t[1])
 
 
-def coq_args(args):
-    return vlib.coq_list("(%s, %s)" % (coq_path(p), coq_atom(a)) for p, a in args)
+def coq_args(args, lead=()):
+    """the argument strings as the ArgsLoader receives them"""
+    return vlib.coq_list(vlib.coq_bytes(t) for t in list(lead) + [arg_text(p, a) for p, a in args])
 
 
 def coq_loader(L):
     if L["kind"] == "args":
-        k = "LArgs %s" % coq_args(L["args"])
+        k = "LArgv %s" % coq_args(L["args"], ("prog", "-x"))
     elif L["kind"] == "raw":
         k = "LRaw %s" % ("None" if L["doc"] is None else "(Some %s)" % coq_doc(L["doc"]))
     elif L["kind"] == "user":
@@ -825,9 +878,269 @@ def coq_hist(cid, case, obs):
     bound = "None"
     if case["prefix"] and last_ok:
         bound = "(Some (%s, %s))" % (cs(case["prefix"]), coq_opt_tree(obs_tree(obs.get("bound"))))
-    start = "[]" if case["start"] == "new" else "[mkLoader 0 (LArgs %s)]" % coq_args(case["osargs"])
+    start = "[]" if case["start"] == "new" else "[mkLoader 0 (LArgv %s)]" % coq_args(case["osargs"])
     return "mkHCase %d %s %s %s" % (cid, start, vlib.coq_list(steps), bound)
 
+
+
+# ------------------------------------------------------------------------------------------------
+# re-used option values / loader slices
+
+NEW_TARGETS = ("newapp", "newcfg")
+
+
+def is_reuse(c):
+    return "rounds" in c
+
+
+def is_plain(c):
+    return not is_hist(c) and not is_reuse(c)
+
+
+def fix_targets(rounds):
+    """make a list of rounds executable: the first target creates its object; sameapp needs an App"""
+    have_app = False
+    have_cfg = False
+    for r in rounds:
+        t = r["target"]
+        if t in ("sameapp",) and not have_app:
+            t = "appcfg" if have_cfg else "newapp"
+        if t in ("appcfg", "samecfg") and not have_cfg:
+            t = "newapp" if t == "appcfg" else "newcfg"
+        r["target"] = t
+        have_cfg = True
+        have_app = t in ("newapp", "sameapp", "appcfg")
+    return rounds
+
+
+def gen_reuse(rng, cid):
+    """pool of option values (built once by the driver) + rounds applying them to Apps / Configures"""
+    schema = gen_schema(rng)
+    lid = [0]
+
+    def newl(kind=None):
+        lid[0] += 1
+        kind = kind or rng.choice(["raw", "raw", "raw", "file", "file", "args", "user", "user"])
+        return gen_loader(rng, schema, lid[0], kind, 0.0)
+
+    def with_override(ls):
+        # a later loader of the list gives some leaf of an earlier one another value: the order is observable
+        cands = [L for L in ls if loader_doc(L) and leaf_paths(loader_doc(L))]
+        if cands and rng.random() < 0.6:
+            E = rng.choice(cands)
+            lid[0] += 1
+            ov = override_of(rng, loader_doc(E), lid[0], ["raw", "raw", "file", "args", "user"])
+            if ov:
+                if ov["kind"] == "user":
+                    ov["cls"] = rng.choice("PPOOU")
+                    ov["ord"] = 0 if ov["cls"] == "U" else rng.choice(USER_ORDS)
+                ls.insert(rng.randint(ls.index(E) + 1, len(ls)), ov)
+        return ls
+
+    pool = []
+    if rng.random() < 0.55:
+        # ONE option value that lists every source: sources := app.SetConfigLoader(base, file, override ...)
+        ls = with_override([newl() for _ in range(rng.choice([2, 3, 3, 4, 5]))])
+        pool.append({"op": "set", "loaders": ls, "spare": rng.random() < 0.2})
+        if rng.random() < 0.25:
+            L = newl(rng.choice(["file", "raw", "user"]))
+            pool.append({"op": "setconfig", "loaders": [L], "spare": False} if L["kind"] == "file" and rng.random() < 0.6
+                        else {"op": "add", "loaders": [L], "spare": rng.random() < 0.2})
+    else:
+        first = True
+        for _ in range(rng.choice([1, 2, 2, 3, 4])):
+            r = rng.random()
+            if r < 0.25:
+                pool.append({"op": "setconfig", "loaders": [newl("file")], "spare": False})
+            else:
+                ls = [newl() for _ in range(rng.choice([1, 1, 2, 3]))]
+                if len(ls) > 1:
+                    ls = with_override(ls)
+                op = "set" if rng.random() < (0.4 if first else 0.08) else "add"
+                pool.append({"op": op, "loaders": ls, "spare": rng.random() < 0.2})
+            first = False
+    osargs = gen_args(rng, schema, rng.choice(["ok", "ok", "dup", "overwrite"])) if rng.random() < 0.4 else []
+    rounds = []
+    have_app = False
+    for k in range(rng.choice([2, 2, 2, 3])):
+        if k == 0:
+            t = rng.choice(["newapp", "newapp", "newapp", "newcfg", "newcfg"])
+        elif have_app:
+            t = rng.choice(["newapp", "newapp", "sameapp", "appcfg", "newcfg", "samecfg"])
+        else:
+            t = rng.choice(["newcfg", "newcfg", "samecfg", "newapp", "appcfg"])
+        have_app = t in ("newapp", "sameapp", "appcfg")
+        uses = list(range(len(pool)))
+        if rng.random() < 0.15 and len(pool) > 1:
+            uses = rng.sample(uses, rng.randint(1, len(pool)))
+            if rng.random() < 0.5:
+                uses.sort()
+        rounds.append({"target": t, "uses": uses})
+    case = {"id": cid, "osargs": osargs, "pool": pool, "rounds": fix_targets(rounds), "profile": "reuse"}
+    finish_reuse(case)
+    return case
+
+
+def reuse_objects(case):
+    """[(start loaders, [rounds])]: the rounds grouped by the object (App / Configure) they act on"""
+    objs = []
+    for i, r in enumerate(case["rounds"]):
+        if r["target"] in NEW_TARGETS or not objs:
+            objs.append([])
+        objs[-1].append(i)
+    return objs
+
+
+def reuse_loaders(case):
+    return [L for p in case["pool"] for L in p["loaders"]] + \
+           [{"lid": 0, "kind": "args", "args": case["osargs"], "doc": None, "missing": False}]
+
+
+def finish_reuse(case):
+    seen = []
+    for L in reuse_loaders(case):
+        d = loader_doc(L)
+        if d:
+            for p in all_paths(d):
+                if p not in seen:
+                    seen.append(p)
+    seen = seen[:48]
+    seen.append(["nope", "missing"])
+    case["paths"] = seen
+
+
+def reuse_ordered_ok(case):
+    """no object accumulates more than 12 loaders of one ordered class (sort.Slice stays an insertion sort)"""
+    for rounds in reuse_objects(case):
+        for rank in (0, 1):
+            n = 0
+            for i in rounds:
+                for u in case["rounds"][i]["uses"]:
+                    p = case["pool"][u]
+                    k = sum(1 for L in p["loaders"] if lclass_of(L)[0] == rank)
+                    n = k if p["op"] == "set" else n + k
+                    if n > 12:
+                        return False
+    return True
+
+
+def gen_reuses(ctx, n, start_id):
+    out = []
+    while len(out) < n:
+        c = gen_reuse(ctx.rng, start_id + len(out))
+        if reuse_ordered_ok(c):
+            out.append(c)
+    return out
+
+
+def go_reuse(ctx, case):
+    g = go_case(ctx, {"id": case["id"], "osargs": case["osargs"], "paths": case["paths"], "prefix": "", "child": False,
+                      "ops": [{"op": "setconfig" if p["op"] == "setconfig" else "addloaders", "loaders": p["loaders"]}
+                              for p in case["pool"]]})
+    pool = []
+    for p, sp in zip(case["pool"], g["ops"]):
+        o = {"op": p["op"], "spare": bool(p.get("spare"))}
+        if p["op"] == "setconfig":
+            o["file"] = sp["file"]
+        else:
+            o["loaders"] = sp["loaders"]
+        pool.append(o)
+    return {"id": case["id"], "osargs": g["osargs"], "paths": g["paths"], "pool": pool, "rounds": case["rounds"]}
+
+
+def coq_reuse(cid, case, obs):
+    routs = obs.get("rounds") or []
+    start = "[mkLoader 0 (LArgv %s)]" % coq_args(case["osargs"])
+    if obs["out"] != "ok" or len(routs) != len(case["rounds"]):
+        return "mkRCase %d [mkHCase %d %s [HInit OPanic []] None]" % (cid, cid, start)   # the driver itself failed
+    objs = []
+    for rounds in reuse_objects(case):
+        steps = []
+        for i in rounds:
+            r, so = case["rounds"][i], routs[i]
+            for u in r["uses"]:
+                p = case["pool"][u]
+                steps.append("%s %s" % ("HSet" if p["op"] == "set" else "HAdd",
+                                        vlib.coq_list(coq_loader(L) for L in p["loaders"])))
+            out = {"ok": "OOk", "err": "OErr", "panic": "OPanic"}[so["out"]]
+            steps.append("HInit %s %s" % (out, coq_nats(so.get("log"))))
+            gets = so.get("gets")
+            if gets is None or len(gets) != len(case["paths"]):
+                steps.append("HGet [(%s, Some (CLeaf (AStr \"?get panicked\")))]" % coq_path(["nope", "missing"]))
+            else:
+                steps.append("HGet %s" % vlib.coq_list("(%s, %s)" % (coq_path(p), coq_opt_tree(obs_tree(g)))
+                                                      for p, g in zip(case["paths"], gets)))
+        objs.append("mkHCase %d %s %s None" % (cid, start, vlib.coq_list(steps)))
+    return "mkRCase %d %s" % (cid, vlib.coq_list(objs))
+
+
+def reuse_stats(case):
+    """what a re-use case contains"""
+    st = {"targets": {}, "a_SetConfigLoader_value_used_twice": False,
+          "of_these_with_an_ordered_loader_listed_before_an_unordered_one": False,
+          "a_loader_slice_with_spare_capacity_used_twice": False, "objects": len(reuse_objects(case))}
+    used = {}
+    for r in case["rounds"]:
+        st["targets"][r["target"]] = st["targets"].get(r["target"], 0) + 1
+        for u in r["uses"]:
+            used[u] = used.get(u, 0) + 1
+    for u, n in used.items():
+        p = case["pool"][u]
+        if n >= 2 and p["op"] == "set":
+            st["a_SetConfigLoader_value_used_twice"] = True
+            ranks = [lclass_of(L)[0] for L in p["loaders"]]
+            if any(ranks[i] < 2 and any(x == 2 for x in ranks[i + 1:]) for i in range(len(ranks))):
+                st["of_these_with_an_ordered_loader_listed_before_an_unordered_one"] = True
+        if n >= 2 and p.get("spare") and p["op"] != "setconfig":
+            st["a_loader_slice_with_spare_capacity_used_twice"] = True
+    return st
+
+
+def reuse_shrink_candidates(c):
+    out = []
+
+    def variant(f):
+        d = copy.deepcopy(c)
+        f(d)
+        d["rounds"] = [r for r in d["rounds"] if r["uses"] or True]
+        fix_targets(d["rounds"])
+        finish_reuse(d)
+        if d["rounds"] and d["pool"]:
+            out.append(d)
+
+    def drop_pool(d, i):
+        d["pool"].pop(i)
+        for r in d["rounds"]:
+            r["uses"] = [u - 1 if u > i else u for u in r["uses"] if u != i]
+
+    if c["osargs"]:
+        variant(lambda d: d.__setitem__("osargs", []))
+    for i in range(len(c["rounds"])):
+        if len(c["rounds"]) > 1:
+            variant(lambda d, i=i: d["rounds"].pop(i))
+        if c["rounds"][i]["target"] in ("sameapp", "appcfg"):
+            variant(lambda d, i=i: d["rounds"][i].__setitem__("target", "samecfg"))
+        if c["rounds"][i]["target"] == "newapp":
+            variant(lambda d, i=i: d["rounds"][i].__setitem__("target", "newcfg"))
+    for i, p in enumerate(c["pool"]):
+        if len(c["pool"]) > 1:
+            variant(lambda d, i=i: drop_pool(d, i))
+        if p.get("spare"):
+            variant(lambda d, i=i: d["pool"][i].__setitem__("spare", False))
+        for j, L in enumerate(p["loaders"]):
+            if len(p["loaders"]) > 1:
+                variant(lambda d, i=i, j=j: d["pool"][i]["loaders"].pop(j))
+            if L["doc"]:
+                for pa in all_paths(L["doc"]):
+                    variant(lambda d, i=i, j=j, pa=pa: d["pool"][i]["loaders"][j].__setitem__(
+                        "doc", drop_key(d["pool"][i]["loaders"][j]["doc"], pa)))
+            for a in range(len(L["args"])):
+                variant(lambda d, i=i, j=j, a=a: d["pool"][i]["loaders"][j]["args"].pop(a))
+    return out
+
+
+RHEADER = HEADER + "Notation case := rcase (only parsing).\n"
+RDEFS = {"M": "rmismatches", "V": "rviolations", "KB": "rkf_b", "KC": "rkf_c", "NT": "rcount_nontrivial"}
 
 HHEADER = HEADER + "Notation case := hcase (only parsing).\n"
 HDEFS = {"M": "hmismatches", "V": "hviolations", "KB": "hkf_b", "KC": "hkf_c", "NT": "hcount_nontrivial"}
@@ -843,19 +1156,22 @@ def is_hist(c):
 def evaluate(ctx, binp, cases, tag):
     """implementation + Coq. returns (by_id, res) with res = {M,V,KB,KC: [ids], NT: n}; plain cases and histories
     go through the same driver run and through their own correspondence functions"""
-    gin = {"cases": [go_hist(ctx, c) if is_hist(c) else go_case(ctx, c) for c in cases]}
+    gin = {"cases": [go_reuse(ctx, c) if is_reuse(c) else go_hist(ctx, c) if is_hist(c) else go_case(ctx, c) for c in cases]}
     rc, res, raw, _loud = vlib.run_json_verbose_share(ctx, binp, gin, timeout=1800)
     if res is None:
         raise vlib.GoBuildError("./cmd/c15 (run)", raw[-3000:])
     ctx.loader_facts = res.get("facts")
     by_id = {}
-    terms, hterms = [], []
+    terms, hterms, rterms = [], [], []
     for c, o in zip(cases, res["outs"]):
-        everyone = hist_loaders(c) if is_hist(c) else [L for op in c["ops"] for L in op["loaders"]]
+        everyone = reuse_loaders(c) if is_reuse(c) else hist_loaders(c) if is_hist(c) else \
+            [L for op in c["ops"] for L in op["loaders"]]
         by_id[c["id"]] = {"case": c, "observed": o,
                           "yaml": {str(L["lid"]): doc_text(L["doc"], L["style"]) for L in everyone
                                    if L["kind"] != "args"}}
-        if is_hist(c):
+        if is_reuse(c):
+            rterms.append(coq_reuse(c["id"], c, o))
+        elif is_hist(c):
             hterms.append(coq_hist(c["id"], c, o))
         else:
             terms.append(coq_case(c["id"], c, o))
@@ -869,6 +1185,11 @@ def evaluate(ctx, binp, cases, tag):
         for k in DEFS:
             out[k] += o2[k]
         out["NTH"] = sum(o2["NT"])
+    if rterms:
+        o3 = vlib.coq_eval_sharded(ctx, "cases_c15r_" + tag, RHEADER, rterms, RDEFS, shard=80)
+        for k in DEFS:
+            out[k] += o3[k]
+        out["NTR"] = sum(o3["NT"])
     out["NT"] = sum(out["NT"])
     return by_id, out
 
@@ -877,7 +1198,13 @@ def evaluate(ctx, binp, cases, tag):
 # shrinking
 
 def case_size(c):
-    n = len(c["osargs"]) + len(c["paths"]) + (1 if c["prefix"] else 0)
+    n = len(c["osargs"]) + len(c["paths"]) + (1 if c.get("prefix") else 0)
+    for r in c.get("rounds", []):
+        n += 4 + len(r["uses"]) + (0 if r["target"] in ("newcfg", "samecfg") else 2)
+    for o in c.get("pool", []):
+        n += 3 + (1 if o.get("spare") else 0)
+        for L in o["loaders"]:
+            n += 2 + len(L["args"]) + (len(all_paths(L["doc"])) if L["doc"] else 0)
     for o in c.get("steps", []):
         n += 2 + (2 if o["app"] else 0)
         for L in o["loaders"]:
@@ -942,6 +1269,8 @@ def hist_shrink_candidates(c):
 
 
 def shrink_candidates(c):
+    if is_reuse(c):
+        return reuse_shrink_candidates(c)
     if is_hist(c):
         return hist_shrink_candidates(c)
     out = []
@@ -1001,7 +1330,7 @@ def load_known_merged(pid):
 def vanished(entry):
     """the paths of the configured sources that the implementation no longer shows (for the replay file)"""
     c, o = entry["case"], entry["observed"]
-    if is_hist(c) or o["out"] != "ok":
+    if not is_plain(c) or o["out"] != "ok":
         return []
     gone = []
     docs = [loader_doc(L) for L in final_loaders(c)]
@@ -1120,6 +1449,7 @@ def run(ctx):
     static_ok = vlib.static_obligations(ctx)
     binp = vlib.go_build(ctx, "./cmd/c15")
     n, nh = (2500, 700) if ctx.quick() else (20000, 6000)
+    nr = 300 if ctx.quick() else 3000
     corpus = load_corpus()
     cases = [dict(c, id=i) for i, c in enumerate(corpus)]
     if ctx.replay:
@@ -1130,7 +1460,11 @@ def run(ctx):
     else:
         cases += gen_cases(ctx, n, start_id=len(cases))
         cases += gen_hists(ctx, nh, start_id=len(cases))
+        cases += gen_reuses(ctx, nr, start_id=len(cases))
     for c in cases:
+        if is_reuse(c):
+            assert reuse_ordered_ok(c), "more than 12 loaders of one ordered class"
+            continue
         everyone = hist_loaders(c) if is_hist(c) else [L for o in c["ops"] for L in o["loaders"]]
         for rank in (0, 1):
             assert sum(1 for L in everyone if lclass_of(L)[0] == rank) <= 12, "more than 12 loaders of one ordered class"
@@ -1143,8 +1477,10 @@ def run(ctx):
                "(FileLoader priority/Order 0, Raw/Args unordered; the driver's user loaders as declared)", facts_ok, json.dumps(ctx.loader_facts))
     static_ok = static_ok and facts_ok
     nhist = sum(1 for c in cases if is_hist(c))
-    ctx.log("cases=%d (histories %d) nontrivial=%d (histories %d) mismatches=%d violations=%d (KF-C15b class %d, "
-            "KF-C15c class %d)" % (len(cases), nhist, nt, res.get("NTH", 0), len(M), len(V), len(KB), len(KC)))
+    nreuse = sum(1 for c in cases if is_reuse(c))
+    ctx.log("cases=%d (histories %d, re-used option values %d) nontrivial=%d (histories %d, re-use %d) mismatches=%d "
+            "violations=%d (KF-C15b class %d, KF-C15c class %d)" % (
+                len(cases), nhist, nreuse, nt, res.get("NTH", 0), res.get("NTR", 0), len(M), len(V), len(KB), len(KC)))
     for i in V:
         by_id[i]["vanished_paths"] = vanished(by_id[i])
 
@@ -1182,13 +1518,22 @@ def run(ctx):
                               "performed by ONE App.Run (options after app.SetConfigure(cfg)); observed.steps[i] belongs to "
                               "steps[i]. Expected: every init consults the loaders configured so far as priority-ordered by "
                               "Order, then ordered by Order, then the others, equal class and Order in the order they were "
-                              "added, and merges on top of what earlier inits left")
+                              "added, and merges on top of what earlier inits left. A case with 'rounds' RE-USES option "
+                              "values: every 'pool' entry (set = app.SetConfigLoader(ls...), add = app.AddConfigLoader(ls...), "
+                              "setconfig = app.SetConfig(file); spare = the []Loader slice has spare capacity) is built ONCE and "
+                              "rounds[i] applies pool[uses] in order to its target: newapp = app.NewApp().Run(opts...), sameapp = "
+                              "the previous App run again, appcfg = a new App with app.SetConfigure(previous Configure), newcfg / "
+                              "samecfg = a configure.Default() of its own / the previous Configure driven directly "
+                              "(SetLoaders(ls...) / AddLoaders(ls...) with the pool's slices, then Initialize); "
+                              "observed.rounds[i] = outcome, read order and Get of every path after round i. Expected: what the "
+                              "same options give when their loader lists are taken as VALUES")
         return cur
 
     def widen():
         ctx.rng.seed(ctx.seed + 4242)
         more = gen_cases(ctx, 3000, 0)
         more += gen_hists(ctx, 1500, len(more))
+        more += gen_reuses(ctx, 600, len(more))
         b2, r2 = evaluate(ctx, binp, more, "widen")
         return [b2[i] for i in r2["V"] if i not in r2["KB"] and i not in r2["KC"]][:3]
 
@@ -1234,8 +1579,27 @@ def run(ctx):
                 kk = L["kind"] if L["kind"] != "user" else \
                     {"P": "user(priority)", "O": "user(ordered)", "U": "user(unordered)"}[L["cls"]]
                 kinds[kk] += 1
+    rs = {"cases": 0, "round_targets": {}, "objects_per_case": {}, "a_SetConfigLoader_value_used_twice": 0,
+          "of_these_with_an_ordered_loader_listed_before_an_unordered_one": 0,
+          "a_loader_slice_with_spare_capacity_used_twice": 0}
     for c in cases:
-        if is_hist(c):
+        if not is_reuse(c):
+            continue
+        distinct[vlib.stable_hash([c["osargs"], c["pool"], c["rounds"]])] = c["id"]
+        st = reuse_stats(c)
+        rs["cases"] += 1
+        for t, k in st["targets"].items():
+            rs["round_targets"][t] = rs["round_targets"].get(t, 0) + k
+        rs["objects_per_case"][st["objects"]] = rs["objects_per_case"].get(st["objects"], 0) + 1
+        for k in ("a_SetConfigLoader_value_used_twice", "of_these_with_an_ordered_loader_listed_before_an_unordered_one",
+                  "a_loader_slice_with_spare_capacity_used_twice"):
+            rs[k] += 1 if st[k] else 0
+        for o in c["pool"]:
+            for L in o["loaders"]:
+                kinds[L["kind"] if L["kind"] != "user" else
+                      {"P": "user(priority)", "O": "user(ordered)", "U": "user(unordered)"}[L["cls"]]] += 1
+    for c in cases:
+        if not is_plain(c):
             continue
         forms = tie_stats(final_loaders(c))
         for f in forms:
@@ -1257,14 +1621,24 @@ def run(ctx):
            "same_file_loaded_twice": 0, "raw_bytes_equal_to_a_file's_content": 0,
            "same_arguments_in_two_ArgsLoaders": 0, "os.Args_repeated_in_an_explicit_ArgsLoader": 0}
     for c in cases:
-        if is_hist(c):
+        if not is_plain(c):
             continue
         st = repeat_stats(c)
         for k, f in zip(rep, ("same", "aba", "samefile", "rawfile", "args", "osargs")):
             rep[k] += 1 if st[f] else 0
+    argtexts = {"typed_by_the_generator(int/float/bool/word)": 0, "text_with_equals_sign": 0, "other_text_or_number": 0,
+                "quoted": 0, "bracketed": 0}
+    for c in cases:
+        everyone = reuse_loaders(c) if is_reuse(c) else hist_loaders(c) if is_hist(c) else \
+            [L for o in c["ops"] for L in o["loaders"]] + [{"kind": "args", "args": c["osargs"]}]
+        for L in everyone:
+            if L["kind"] == "args":
+                for _p, a in L["args"]:
+                    argtexts[arg_value_class(a[1]) if a[0] == "t" else "typed_by_the_generator(int/float/bool/word)"] += 1
     ids = sorted(by_id)
-    plain_ids = [i for i in ids if not is_hist(by_id[i]["case"])]
-    samples = [by_id[i] for i in plain_ids[:1] + plain_ids[-1:] + [i for i in ids if is_hist(by_id[i]["case"])][-1:]]
+    plain_ids = [i for i in ids if is_plain(by_id[i]["case"])]
+    samples = [by_id[i] for i in plain_ids[:1] + plain_ids[-1:] + [i for i in ids if is_hist(by_id[i]["case"])][-1:] +
+               [i for i in ids if is_reuse(by_id[i]["case"])][-1:]]
     cov = {
         "evaluations": len(cases),
         "distinct_nontrivial": min(nt, len(distinct)),
@@ -1275,26 +1649,38 @@ def run(ctx):
                 "two or more of them and some leaf path supplied by exactly one. Histories on one Configure (SetLoaders / "
                 "AddLoaders / Initialize / Get steps, last Initialize optionally inside App.Run): observed per Initialize the "
                 "outcome and the read order, per read Get(p) for every path; non-trivial = an Initialize, then a change of "
-                "the loader list, then another Initialize. distinct = distinct (start, osargs, ops/steps with documents, prefix)",
+                "the loader list, then another Initialize. Re-used option values: option values / []Loader slices built once and "
+                "applied in 2-3 rounds to new Apps, the same App again, a new App on the same Configure, Configures driven "
+                "directly; observed per round the outcome, the read order and Get(p) for every path; non-trivial = at least two "
+                "Initializes from the same values. distinct = distinct (start, osargs, ops/steps/pool+rounds with documents, prefix)",
         "samples": samples,
         "traces_validated_against_impl": len(cases),
         "input_distribution": {"loader_kinds": kinds, "loaders_per_case": nload, "options": opkinds, "profiles": profiles,
                                "child_process_cases(real os.Args)": sum(1 for c in cases if c.get("child")),
                                "prefix_bound_cases": sum(1 for c in cases if c.get("prefix")),
                                "repeated_payloads": rep,
+                               "command_line_values(--app.config=K=V)": argtexts,
                                "cases_with_loaders_of_equal_class_and_Order_giving_one_leaf_different_values": ties,
                                "histories_on_one_Configure": hs,
+                               "re-used_option_values_and_loader_slices": rs,
                                "histories_with_loaders_of_equal_class_and_Order_giving_one_leaf_different_values": hties},
         "nontrivial_cases": nt,
         "nontrivial_histories": res.get("NTH", 0),
+        "nontrivial_reuse_cases": res.get("NTR", 0),
         "distinct_cases": len(distinct),
         "known_finding_class_sizes": {"KF-C15b": len(KB), "KF-C15c": len(KC)},
     }
     return vlib.decide(ctx, static_ok, by_id, M, V, cov, classify_known=classify, widen=widen, shrink=shrink,
                        assumptions=["documents have unique keys per map (wf_doc, re-checked on every generated case)",
                                     "keys are lower-case identifiers without dots (viper folds case and splits on '.')",
+                                    "command-line values are printable ASCII; the typing of a value text is the model's (Model/Strconv.v "
+                                    "parse_any through ConfigMerge.parse_arg): quoted texts lose the quotes, number-like texts become numbers "
+                                    "(007 = 7), [..] / {json} / map[..] become lists / maps; a value that is one lone quote character is not "
+                                    "generated (strconv2.ParseAny panics on it: KF-C16e's fault in go-kid/strconv2)",
                                     "loaders of equal class and Order are consulted in the order they were added (sort.Slice on at most 12 "
                                     "elements is a stable insertion sort; no case has more than 12 loaders of one ordered class)",
                                     "a later Initialize of the same Configure merges on top of what earlier ones left (nothing "
                                     "resets the binder); user-written loaders deliver fixed bytes and never fail",
-                                    "viper.Get cannot distinguish a null value from an absent key; both are compared as absent"])
+                                    "viper.Get cannot distinguish a null value from an absent key; both are compared as absent",
+                                    "an option value / a []Loader slice denotes the list of loaders it was built from, however often "
+                                    "and wherever it is used (re-use stream: every object configured from it is compared with that list)"])
